@@ -116,6 +116,8 @@ def encode(pc, hints, goal, pool, fresh, stage=3, extra_terms=(), small=None):
 
     hyps = [c for c in dsl.flat(list(pc) + list(hints))] + goal_all_hyps
     terms = None
+    enc.alls = [c for c in hyps if isinstance(c, dsl.All)]
+    enc.pool = pool
 
     def hyp_clause(c):
         nonlocal terms
@@ -187,6 +189,52 @@ def encode(pc, hints, goal, pool, fresh, stage=3, extra_terms=(), small=None):
                 for c in dsl.flat(dsl.when(app, body)):
                     enc.assertions.append(hyp_clause(c))
     return enc
+
+
+def refine(enc, extra_terms, timeout_ms, rounds=10):
+    """counterexample-guided instantiation: solve with the few instances of stage 0; while the solver returns a candidate
+    model, add exactly those instances of the ∀ hypotheses (over the large stage-3 term universe) that the candidate violates.
+    Only sound consequences are ever added, so `unsat` is a proof; anything else falls back to the staged procedure."""
+    if not enc.alls:
+        return None
+    offs = []
+    for hq in enc.alls:
+        offs.extend([hq.lo, hq.hi])
+    universe = _inst_terms(list(enc.pool) + list(extra_terms), offs, 3)
+    if len(universe) * len(enc.alls) > 6000:
+        universe = universe[:max(40, 6000 // len(enc.alls))]
+    assertions = list(enc.assertions)
+    seen = set()
+    t_end = time.time() + timeout_ms / 1000.0
+    for _ in range(rounds):
+        left = int((t_end - time.time()) * 1000)
+        if left < 500:
+            return None
+        s, r, dt = check_z3(assertions + seq_axioms(assertions), min(left, 8000))
+        if r == z3.unsat:
+            return 'unsat'
+        if r != z3.sat:
+            return None
+        m = s.model()
+        new = []
+        for c in enc.alls:
+            for t in universe:
+                try:
+                    guard = m.eval(z3.And(c.lo <= t, t < c.hi), model_completion=True)
+                    if not z3.is_true(guard):
+                        continue
+                    body = _zb(c.f(t))
+                    if z3.is_false(m.eval(body, model_completion=True)):
+                        inst = z3.Implies(z3.And(c.lo <= t, t < c.hi), body)
+                        if inst.get_id() not in seen:
+                            seen.add(inst.get_id())
+                            new.append(inst)
+                except z3.Z3Exception:
+                    continue
+        if not new:
+            return None
+        assertions.extend(new[:400])
+    return None
 
 
 def _has_bound_var(e):
@@ -357,6 +405,12 @@ def discharge(ctx, ob, z3_timeout_ms=None, use_cvc5=True):
             print('      [solve] %s stage %d -> %s in %.1fs (%d assertions)' % (ob.name, stage, r, dt, len(enc.assertions)), flush=True)
         if r == z3.unsat or last:
             break
+        if stage == 0 and r == z3.sat and os.environ.get('PYVC_NO_REFINE') is None:
+            if refine(enc, extra, z3_timeout_ms) == 'unsat':
+                r = z3.unsat
+                if os.environ.get('PYVC_TRACE'):
+                    print('      [solve] %s refined -> unsat in %.1fs' % (ob.name, time.time() - t0), flush=True)
+                break
     ob.solver = 'z3'
     ob.genuine = False
     if r == z3.unsat:
